@@ -17,7 +17,7 @@ from ..terms import C, ZERO, short, is_const, lin_of, Lin, INF, mk_byte, bitop_b
 from .. import mem
 from .dispatch import OP
 from .c03 import own_mac_byte
-from .frame_common import (FrameSetup, run_regions, Snap, sends, effects, BLOCK_UNIT, entry_icon_exists, ICON_SIZE)
+from .frame_common import (FrameSetup, run_regions, Snap, sends, effects, BLOCK_UNIT, entry_icon_exists, ICON_SIZE, record_field)
 from .automata_common import load_core
 
 HDR = 34
@@ -51,15 +51,20 @@ def run(tier):
 BUILDER = 'sendLargeTlvResponse'
 
 
+BUILDER_ROLES = None      # parameter index -> role ('st', 'ctx', 'frame', 'data', 'size', 'offset')
+
+
 def builder_name(ix):
-    """The QueryLargeTlvResp builder, by role rather than by name: the function that transmits and takes
-    (record, context, request frame, data, size, offset) - `sendLargeTlvResponse` today."""
+    """The QueryLargeTlvResp builder, by role rather than by name or exact spelling of its parameter list: the function that
+    transmits and takes the record, the context, the request, a data pointer, its size (size_t) and the offset (uint16_t).
+    Parameter roles: size = the size_t, offset = the uint16_t, st = the record pointer, data = the pointer just before the
+    size, ctx = the remaining `void *`, frame = the remaining pointer."""
+    global BUILDER_ROLES
     from ..facts import walk, fn_params
-    want = ['lltd_iface_state *', 'void *', 'void *', 'const void *', 'size_t', 'uint16_t']
     cands = []
     for name, fn in ix.functions.items():
-        ps = [p_['type']['qualType'].replace('struct ', '') for p_ in fn_params(fn)]
-        if [x.replace('const ', '') if i < 3 else x for i, x in enumerate(ps)] != want and ps != want:
+        ps = [' '.join(p_['type']['qualType'].replace('struct ', '').replace('const ', '').split()) for p_ in fn_params(fn)]
+        if len(ps) != 6 or ps.count('size_t') != 1 or ps.count('uint16_t') != 1 or ps.count('lltd_iface_state *') != 1:
             continue
         sends_ = False
         for n in walk(fn):
@@ -69,11 +74,31 @@ def builder_name(ix):
                     c = c['inner'][0]
                 if c.get('kind') == 'DeclRefExpr' and c.get('referencedDecl', {}).get('name') == 'lltd_port_send_frame':
                     sends_ = True
-        if sends_:
-            cands.append(name)
+        if not sends_:
+            continue
+        roles = {ps.index('size_t'): 'size', ps.index('uint16_t'): 'offset', ps.index('lltd_iface_state *'): 'st'}
+        di = ps.index('size_t') - 1
+        if di < 0 or di in roles or not ps[di].endswith('*'):
+            continue
+        roles[di] = 'data'
+        rest = [i for i in range(6) if i not in roles]
+        if len(rest) != 2 or not all(ps[i].endswith('*') for i in rest):
+            continue
+        voids = [i for i in rest if ps[i] == 'void *']
+        ctx_i = voids[0] if voids else rest[0]
+        roles[ctx_i] = 'ctx'
+        roles[[i for i in rest if i != ctx_i][0]] = 'frame'
+        cands.append((name, roles))
     if len(cands) != 1:
-        raise AnalysisBroken('cannot identify the QueryLargeTlvResp builder (transmitting function taking record, context, frame, data, size, offset): candidates %s' % cands)
-    return cands[0]
+        raise AnalysisBroken('cannot identify the QueryLargeTlvResp builder (transmitting function taking record, context, request, data, size_t size, '
+                             'uint16_t offset): candidates %s' % [c[0] for c in cands])
+    BUILDER_ROLES = cands[0][1]
+    return cands[0][0]
+
+
+def by_role(vals):
+    """Order role -> value into the builder's parameter order."""
+    return [vals[BUILDER_ROLES[i]] for i in range(6)]
 
 
 def part1(rep, prog, ix, mtu_ok):
@@ -88,12 +113,13 @@ def part1(rep, prog, ix, mtu_ok):
         fr = mk_obj(st, 'frame', PortModel.MTU if mtu_ok else ('sym', 'rxbuf.size', 1500, 9216), kind='input', default='sym')
         mk_obj(st, 'ext:ctx', 1, kind='ext', default='unknown')
         so = mk_obj(st, 'st', srec.size, kind='heap', default='sym', heap=True)
-        so.cells[((), srec.field('mapper_seq')[1])] = (2, SEQ0)
+        so.cells[((), record_field(srec, 'mapper_seq')[1])] = (2, SEQ0)
         mk_obj(st, 'DATA', S, kind='heap', default='unknown', heap=True)
         vp = ix.parse_type('void *')
         dp = ('pset', ('sym', 'data@entry', 0, 0), (ZERO, ('ptr', 'DATA', ZERO)))
-        return [Val(ix.parse_type('lltd_iface_state *'), ('ptr', 'st', ZERO)), Val(vp, ('ptr', 'ext:ctx', ZERO)), Val(vp, ('ptr', 'frame', ZERO)),
-                Val(vp, dp), Val(ix.parse_type('unsigned long'), S), Val(ix.parse_type('unsigned short'), O)]
+        return by_role({'st': Val(ix.parse_type('lltd_iface_state *'), ('ptr', 'st', ZERO)), 'ctx': Val(vp, ('ptr', 'ext:ctx', ZERO)),
+                        'frame': Val(vp, ('ptr', 'frame', ZERO)), 'data': Val(vp, dp), 'size': Val(ix.parse_type('unsigned long'), S),
+                        'offset': Val(ix.parse_type('unsigned short'), O)})
     I, outs = run_entry(prog, BLOCK_UNIT, BUILDER, setup, port=port, tracked=(S, O), name=BUILDER)
     for ob in I.obs.values():
         if not ob.ok:
@@ -202,7 +228,8 @@ def part2(rep, prog, ix):
 
     def summary(I, st, args, node, rty):
         # record what is handed to the response builder, then interpret the real function
-        st.tags['qlt.args'] = (st.canon(args[3].t), st.canon(args[4].t), st.canon(args[5].t))
+        idx = {r: i for i, r in BUILDER_ROLES.items()}
+        st.tags['qlt.args'] = (st.canon(args[idx['data']].t), st.canon(args[idx['size']].t), st.canon(args[idx['offset']].t))
         ixx, fn = I.prog.resolve(I.ix, BUILDER)
         return I.inline(st, ixx, fn, args, node, rty)
     orig_run = fs.run
